@@ -11,6 +11,10 @@ import (
 	"github.com/nats-io/nats.go"
 )
 
+// inboxChanLen is the buffer size of the channel receiving the messages sent to
+// the inbox of a request (the same as nats.RequestChanLen).
+const inboxChanLen = 8
+
 var (
 	errInvalidResponse           = errors.New("invalid response")
 	errResourceResponse          = errors.New("response is a resource response")
@@ -362,8 +366,10 @@ func SendRequest(nc res.Conn, subject string, req interface{}, timeout time.Dura
 	// Manually create a response inbox
 	inbox := nats.NewInbox()
 
-	// Subscribe to response inbox
-	ch := make(chan *nats.Msg, 1)
+	// Subscribe to response inbox. A NATS channel subscription drops messages
+	// that the channel cannot take, so leave room for the pre-responses and the
+	// response that may arrive before they are read.
+	ch := make(chan *nats.Msg, inboxChanLen)
 	sub, err := nc.ChanSubscribe(inbox, ch)
 	if err != nil {
 		r.Error = res.InternalError(err)
